@@ -129,10 +129,10 @@ func init() {
 		d("encoding-differs", "invoke-ok"),
 		"differential: the same history with every function re-encoded (positional <-> object field at depth 1/2, option <-> tag, +variadic); (a) 1 ctor + Invoke with names/optional; (b) 1 ctor with 2 results and groups; (c) 1 ctor with 2 results and names {\"\",a}, Invoke with 2 params; (d) 1 ctor with <=2 parameters and names {\"\",a} that may depend on its own result (cycle verdicts of every encoding); (e) positional / embed-first / unexported-field-before-embed spellings of one constructor (ignore-unexported); (f) 2 parameterless ctors that may fail, Invoke with 2 parameters re-encoded uniformly (positional / object / nested object): the same functions run", "the quick entries, each explored a second time with z3 4.8.12 (--cross z3), 200 paths validated natively",
 		stubs, uf)
-	reg("C16", d("verifC16a", "verifC16e", "verifC16f", "verifC16g", "verifC16h"), d("verifC16a", "verifC16b", "verifC16g", "verifC16c", "verifC16d", "verifC16h"),
+	reg("C16", d("verifC16a", "verifC16f", "verifC16g"), d("verifC16a", "verifC16b", "verifC16f", "verifC16g", "verifC16e", "verifC16c", "verifC16d", "verifC16h"),
 		d("(*go.uber.org/dig.Scope).Scope", "(*go.uber.org/dig.Scope).newGraphNode", provide, invoke),
 		d("permuted", "scopes-moved", "order-compared-ok"),
-		"differential over 3 containers: A as drawn, B with all scopes created first and the registrations permuted, C with DeferAcyclicVerification; (a) 2 registrations with group params, <=2 scopes; (b) 3 registrations incl. a decorator; (e) 3 registrations with group and single edges over <=2 scopes created first (order only); (f) 3 ctors over <=3 scopes created at any time, order kept (scope timing only); (g) 2 parameterless ctors with Export over <=2 scopes (exported and private registrations of one key in either order); (h) 4 ctors alternating between the root and a child created at any time, the first with 2 (group) parameters; acceptance of the block compared in both directions; [(b) is run in the thorough tier only]", "(a),(b) plus (c) = (e) with scopes created at any time and (d) = (f) with every registration order",
+		"differential over 3 containers: A as drawn, B with all scopes created first and the registrations permuted, C with DeferAcyclicVerification; (a) 2 registrations with group params, <=2 scopes; (b) 3 registrations incl. a decorator; (e) 3 registrations with group and single edges over <=2 scopes created first (order only); (f) 3 ctors over <=3 scopes created at any time, order kept (scope timing only); (g) 2 parameterless ctors with Export over <=2 scopes (exported and private registrations of one key in either order); (h) 4 ctors alternating between the root and a child created at any time, the first with 2 (group) parameters; acceptance of the block compared in both directions [(b), (e) and (h) are run in the thorough tier only: a quick check has to finish well inside 15 minutes, (e) needs about 6 and (h) about 9]", "(a),(b) plus (c) = (e) with scopes created at any time and (d) = (f) with every registration order",
 		stubs, uf, "histories whose registrations are all accepted in A")
 	reg("C17", d("verifC17a", "verifC17b", "verifC17c", "verifC17d", "verifC17e"), d("verifC17a", "verifC17b", "verifC17c", "verifC17d", "verifC17e"),
 		d("go.uber.org/dig.dryInvoker", cnCall, invoke),
